@@ -807,15 +807,22 @@ pub fn run(which: Which, ctx: &mut Ctx) {
         for inward in [false, true] {
             for split in [false, true] {
                 let (a, b) = if inward { (1usize, 0usize) } else { (0, 1) };
-                let mut prelude = vec![(a, b, 0, if split { k / 2 } else { k })];
+                // one edge between the hub and node 2 before the burst and one with another value after it
+                // (parallel edges whose list positions are k entries apart)
+                let (pa, pb) = if inward { (2usize, 0usize) } else { (0, 2) };
+                let mut prelude = vec![(pa, pb, 5, 1), (a, b, 0, if split { k / 2 } else { k })];
                 if split {
                     prelude.push((if inward { 2 } else { 0 }, if inward { 0 } else { 2 }, 1, k - k / 2));
                 }
+                prelude.push((pa, pb, 6, 1));
                 let o = |kind, u, v, e| HOp { kind, u, v, e, pu: Prov::Orig, pv: Prov::Orig, guide: None };
                 // h = hub, f = a node with no edge to or from the hub so far
                 let (h, f) = (0usize, 3usize);
                 let (x, y) = if inward { (h, f) } else { (f, h) }; // the single edge goes against the hub's long list
                 let ops = vec![
+                    o(OpKind::Disconnect, pa, pb, 0),
+                    o(OpKind::Connect, pa, pb, 7),
+                    o(OpKind::Disconnect, pa, pb, 0),
                     o(OpKind::Lookup, h, f, 0),
                     o(OpKind::Connect, x, y, 1),
                     o(OpKind::TryConnect, y, x, 0),
